@@ -666,7 +666,7 @@ theorem installRequests_opts_nodup (d : DefaultsCfg) (k : Kind) (n : NodeCfg) (h
   rcases List.mem_append.mp hr with hr | hr
   · rcases List.mem_append.mp hr with hr | hr
     · obtain ⟨e, _, rfl⟩ := List.mem_map.mp hr
-      simp [keys]
+      simp [keys, sysReq]
     · rcases installServices_opts d _ _ r hr with h0 | ⟨c, hc, h0⟩
       · rw [h0]; simp [keys]
       · rw [h0]; exact h c (by simp [hc])
@@ -1449,7 +1449,7 @@ theorem C20_configured_application_wins (d : DefaultsCfg) (p : Power) (k : Kind)
   unfold installAll installRequests
   rw [h]
   simp only [List.map_append, List.map_cons]
-  generalize (((systemSoftware k).map (fun (x : String × Bool) => ({ name := x.1, isApp := x.2, opts := [] } : SoftReq))).map
+  generalize (((systemSoftware k).map sysReq).map
       (newInstance p) ++ (installServices d ((systemSoftware k).map (·.1)) n.services).map (newInstance p)) = front
   have key : ∀ (front : List Soft) (tail : List Soft) (s : Soft), (∀ d ∈ tail, d.name ≠ s.name) →
       s ∈ lastRequests (front ++ s :: tail) := by
@@ -1465,16 +1465,19 @@ theorem C20_configured_application_wins (d : DefaultsCfg) (p : Power) (k : Kind)
       split
       · exact ih
       · exact List.mem_cons_of_mem _ ih
-  let mk : SwCfg → Soft := fun c => newInstance p
-    { name := c.type, isApp := true, opts := c.opts, health0 := c.health.getD .good, initStarts := c.initStarts, configured := true }
+  let mk : SwCfg → Soft := fun c => newInstance p (appReq c)
   have hname : ∀ d : SwCfg, (mk d).name = d.type := fun d => newInstance_name p _
   have := key (front ++ pre.map mk) (post.map mk) (mk c)
     (by intro d hd; rcases List.mem_map.mp hd with ⟨e, he, rfl⟩; rw [hname, hname]; exact hlast e he)
+  have hfields : ∀ r : SoftReq, (newInstance p r).isApp = r.isApp ∧ (newInstance p r).opts = r.opts := by
+    intro r
+    have hs : ∀ s : Soft, (startSw p s).isApp = s.isApp ∧ (startSw p s).opts = s.opts := by
+      intro s; unfold startSw; split <;> exact ⟨rfl, rfl⟩
+    unfold newInstance
+    cases r.initStarts <;> cases r.isApp <;> cases r.configured <;> simp [hs]
   refine ⟨mk c, by simpa [List.append_assoc, mk, Function.comp_def] using this, hname c, ?_, ?_⟩
-  · simp only [mk, newInstance]
-    cases c.initStarts <;> simp [startSw] <;> split <;> simp
-  · simp only [mk, newInstance]
-    cases c.initStarts <;> simp [startSw] <;> split <;> simp
+  · exact (hfields (appReq c)).1
+  · exact (hfields (appReq c)).2
 
 /-! ### key order of mappings is irrelevant -/
 
